@@ -121,6 +121,8 @@ class E2:
                                "intermediate overflow/underflow (the properties' own proviso); libm ln/exp are uninterpreted")
         self.n_queries = 0
         self.cross = []
+        self._pool = None
+        self._futures = []
 
     # ---------------------------------------------------------------- interpreter helpers
     def interp(self, dom, max_paths=256):
@@ -151,32 +153,64 @@ class E2:
         return r, model, dt
 
     def _cross_check(self, s, r, tag):
-        """Second/third solver on the same query text (thorough tier)."""
+        """Second/third solver on the same query text (thorough tier); runs in a worker pool, joined in finish()."""
         try:
             os.makedirs(self.smt2_dir, exist_ok=True)
             path = os.path.join(self.smt2_dir, tag.replace("/", "_").replace(" ", "_")[:150] + ".smt2")
             with open(path, "w") as f:
                 f.write("(set-logic ALL)\n" + s.to_smt2())
-            res = {}
-            for name, cmd in (("z3-4.8.12", ["/usr/bin/z3", "-T:60", path]),
-                              ("cvc5", ["cvc5", "--lang", "smt2", "--tlimit=60000", path])):
-                try:
-                    p = subprocess.run(cmd, stdout=subprocess.PIPE, stderr=subprocess.STDOUT, text=True, timeout=90)
-                    out = p.stdout.strip().split("\n")
-                    first = out[0].strip() if out else ""
-                    if any("(error" in l for l in out):
-                        first = "error"
-                    res[name] = first
-                except Exception as e:
-                    res[name] = "n/a"
-            mine = str(r)
-            disagree = [n for n, v in res.items() if v in ("sat", "unsat") and mine in ("sat", "unsat") and v != mine]
-            self.cross.append({"query": tag, "z3-5.1": mine, **res})
+        except Exception as ex:
+            self.cross.append({"query": tag, "error": str(ex)})
+            return
+        if self._pool is None:
+            from concurrent.futures import ThreadPoolExecutor
+            self._pool = ThreadPoolExecutor(max_workers=max(2, min(12, (os.cpu_count() or 4) - 2)))
+        self._futures.append(self._pool.submit(self._cross_job, path, str(r), tag))
+
+    def _cross_job(self, path, mine, tag):
+        res = {}
+        cap = int(os.environ.get("VERIF_CROSS_CAP_S", "20"))
+        for name, cmd in (("z3-4.8.12", ["/usr/bin/z3", "-T:%d" % cap, path]),
+                          ("cvc5", ["cvc5", "--lang", "smt2", "--tlimit=%d" % (cap * 1000), path])):
+            try:
+                p = subprocess.run(cmd, stdout=subprocess.PIPE, stderr=subprocess.STDOUT, text=True, timeout=cap + 10)
+                out = p.stdout.strip().split("\n")
+                first = out[0].strip() if out else ""
+                if any("(error" in l for l in out):
+                    first = "error"
+                res[name] = first
+            except Exception:
+                res[name] = "n/a"
+        try:
+            os.remove(path)
+        except OSError:
+            pass
+        disagree = [n for n, v in res.items() if v in ("sat", "unsat") and mine in ("sat", "unsat") and v != mine]
+        rec = {"query": tag, "z3-5.1": mine}
+        rec.update(res)
+        return rec, disagree
+
+    def _join_cross(self):
+        agree = {"z3-4.8.12": 0, "cvc5": 0}
+        for fut in self._futures:
+            try:
+                rec, disagree = fut.result()
+            except Exception as ex:
+                self.cross.append({"error": str(ex)})
+                continue
+            for k in agree:
+                if rec.get(k) == rec.get("z3-5.1") and rec.get(k) in ("sat", "unsat"):
+                    agree[k] += 1
+            if disagree or len(self.cross) < 40:
+                self.cross.append(rec)
             if disagree:
-                self.rep.add(Obligation("crosscheck:" + tag, "E2-cross", "solvers agree on the query", "inconclusive",
-                                        detail="solver disagreement: z3-5.1=%s %s" % (mine, res)))
-        except Exception as e:  # cross-check is best effort
-            self.cross.append({"query": tag, "error": str(e)})
+                self.rep.add(Obligation("crosscheck:" + rec["query"], "E2-cross", "solvers agree on the query", "inconclusive",
+                                        detail="solver disagreement: %r" % (rec,)))
+        if self._futures:
+            self.rep.self_tests["cross_check_summary"] = {"queries": len(self._futures), "agreeing_verdicts": agree,
+                                                          "note": "timeouts/unknown of the second solver are not disagreements"}
+        if self._pool is not None:
+            self._pool.shutdown()
 
     def prove(self, name, what, assumptions, goal, *, dom_name, functions, witness_terms=None, role=None,
               replay=None, cap_ms=None, extra_bounds=None, prefer=None):
@@ -256,6 +290,7 @@ class E2:
         return path
 
     def finish(self):
+        self._join_cross()
         self.rep.self_tests["std_models_used"] = sorted(builtins_model.USED)
         self.rep.self_tests["smt_queries"] = self.n_queries
         if self.cross:
